@@ -890,11 +890,15 @@ func (p *Primary) getSessionIDFromContext(ctx context.Context) string {
 			id, session.Connected, session.Active, session.LastAckSequence)
 	}
 
-	// Return the first active session ID (this is just a placeholder)
-	for id, session := range p.sessions {
-		if session.Connected {
-			log.Info("Selected active session %s", id)
-			return id
+	// A request without session ID can only be attributed when there is no
+	// choice. With several sessions, picking one would credit some other
+	// replica with the acknowledgement (and with being alive).
+	if len(p.sessions) == 1 {
+		for id, session := range p.sessions {
+			if session.Connected {
+				log.Info("Selected the only session %s", id)
+				return id
+			}
 		}
 	}
 
